@@ -486,31 +486,43 @@ func (c *Client) Lifetime() time.Duration {
 // Uptime is the time at which the client successfully connected to the
 // server.
 func (c *Client) Uptime() (up *time.Time, err error) {
-	if !c.IsConnected() {
+	// One critical section for the check and the read: the connection may be torn
+	// down (c.conn set to nil) at any moment in between otherwise.
+	c.mu.RLock()
+	defer c.mu.RUnlock()
+
+	if c.conn == nil {
 		return nil, ErrNotConnected
 	}
 
-	c.mu.RLock()
 	c.conn.mu.RLock()
-	up = c.conn.connTime
-	c.conn.mu.RUnlock()
-	c.mu.RUnlock()
+	defer c.conn.mu.RUnlock()
 
-	return up, nil
+	if !c.conn.connected {
+		return nil, ErrNotConnected
+	}
+
+	return c.conn.connTime, nil
 }
 
 // ConnSince is the duration that has past since the client successfully
 // connected to the server.
 func (c *Client) ConnSince() (since *time.Duration, err error) {
-	if !c.IsConnected() {
+	c.mu.RLock()
+	defer c.mu.RUnlock()
+
+	if c.conn == nil {
 		return nil, ErrNotConnected
 	}
 
-	c.mu.RLock()
 	c.conn.mu.RLock()
+	defer c.conn.mu.RUnlock()
+
+	if !c.conn.connected {
+		return nil, ErrNotConnected
+	}
+
 	timeSince := time.Since(*c.conn.connTime)
-	c.conn.mu.RUnlock()
-	c.mu.RUnlock()
 
 	return &timeSince, nil
 }
